@@ -291,6 +291,19 @@ pub fn build(repo: &Path, root: &Path, with_big: bool) -> Tree {
             let text = "fragment G on Hero { name friends { ...G } }\nfragment F on Hero { name }\nquery Tree { hero { ...G } heroFriends { ...F } }\n";
             fs::write(d.join("query_samenames.graphql"), text).unwrap();
             fixtures.push(Fixture { dir: name.to_string(), file: "query_samenames.graphql".into(), is_schema: false, ops: operation_names(text), big: false, deepbad: false });
+            // comment lines that look like an include mechanism (they are plain comments to the
+            // shipped code, so these documents fail for want of their fragments - every time)
+            for (file, text) in [
+                ("imp_c.graphql", "fragment UserName on Author { name }\n"),
+                ("imp_p.graphql", "#import \"./imp_c.graphql\"\nfragment UserCard on Author { ...UserName mood }\n"),
+                ("imp_dashboard.graphql", "#import \"./imp_c.graphql\"\n#import \"./imp_p.graphql\"\nquery Dash { me { ...UserName ...UserCard } }\n"),
+                ("imp_settings.graphql", "#import \"./imp_p.graphql\"\nquery Settings { me { ...UserCard } }\n"),
+            ] {
+                fs::write(d.join(file), text).unwrap();
+                if file.starts_with("imp_d") || file.starts_with("imp_s") {
+                    fixtures.push(Fixture { dir: name.to_string(), file: file.into(), is_schema: false, ops: operation_names(text), big: false, deepbad: false });
+                }
+            }
             // variables of types the schema does not declare, met in two different orders
             for (file, text) in [("query_undeclared_a.graphql", "query UA($a: Alpha, $z: Zeta) { me { name } }\n"), ("query_undeclared_b.graphql", "query UB($z: Zeta, $a: Alpha, $m: Mood) { me { name } }\n")] {
                 fs::write(d.join(file), text).unwrap();
